@@ -10,13 +10,22 @@
      restoreRDBFile / CmdRestore.Main (1-3 input files, 1-3 file workers) against the model Redis while a scheduler decides which connection's pending
      command executes next (random / starve-one-connection / free); the per-connection command log and
      the final keyspace are judged by TLC (FsTrace.tla: right db per command, one writer and at most
-     one successful RESTORE per key, every unfiltered key equal to the source value, failures reported)."""
+     one successful RESTORE per key, every unfiltered key equal to the source value, failures reported).
+ (C+B, several sources) FanIn.tla: N syncers sharing the full-sync semaphore of weight P (CmdSync.Main / the first half
+     of Sync(): retry counter, Acquire, refused PSYNC -> Release + restart, +CONTINUE, full sync done / failed);
+     TLC: permits taken = syncers between Acquire and Release, never more than P, every source served unless
+     one exhausts the retries (then the tool stops), for every assignment of refusals / checkpoints to 3
+     sources.  N real Sync() runs (2-6 sources, 1-4 permits) against scripted sources that stop in the middle of
+     their RDB until the driver lets one go; FanInTrace.tla explains every recorded event with FanIn's own
+     actions (Acquire / Release inferred), so a trace with more than P full synchronisations under way, a leaked
+     permit, a missing restart or a wrong final state (keys, list order, per-source checkpoint) is rejected."""
 import random
 import time
 
 import vlib
 from vlib import Infra, log
 from checks.fs_common import run_cases
+from checks import fanin_common
 
 PID = "C07"
 KINDS = ["string", "list", "set", "zset", "hash"]
@@ -125,12 +134,18 @@ def run(tier, seed, replay=None):
                                                 {"id": 2, "db": 1, "key": "after", "kind": "string", "type": -1}]})
         run_cases(sc, PID, verdict, race, seed, "chunk-rewrite-race", stats)
         samples = [{"scenario": cases[0]}, {"events": [x for x in rows if x.get("case") == cases[0]["id"]][:8]}]
+        # several sources at once into the one target (CmdSync.Main): N real Sync() share the full-sync semaphore; FanIn.tla / FanInTrace.tla
+        fsamples = []
+        fstates, ftrans = fanin_common.run(sc, PID, verdict, thorough, seed, stats, cmds, fsamples)
+        mstates += fstates
+        mtrans += ftrans
+        samples += fsamples
     rc = verdict.finish()
     cov = {"states": mstates + stats["states"], "transitions": mtrans + stats["transitions"], "traces_validated_against_impl": stats["cases"],
            "samples": samples, "evaluations": stats["events"], "distinct_nontrivial": sum(1 for c in cases if c["cfg"]["parallel"] > 1),
            "rule": "scenarios = entry sequences taken from FullSync.tla's initial states (simulation), concretised with seeded random "
                    "types / encodings / Parallel 1..8 / target.db / filters / scheduler strategy; non-trivial = Parallel > 1",
-           "exhaustive": False, "keys_restored": stats["keys"], "checker_cmd": "; ".join(cmds + [stats["cmd"]])}
+           "exhaustive": False, "keys_restored": stats["keys"], "fanin_runs": stats.get("fanin_runs", 0), "fanin_syncers": stats.get("fanin_syncers", 0), "checker_cmd": "; ".join(cmds + [stats["cmd"]])}
     vlib.write_evidence(PID, tier, seed, "model_checking", cov, time.time() - t0, len(verdict.violations),
                         ["which worker takes which entry is decided by the Go runtime; the scheduler only orders the target's command processing",
                          "mredis stands in for the target; value equality is judged by the harness's independent RDB decoder (rdbref)",
